@@ -294,7 +294,7 @@ Qed.
 
 (* the float a too-large decimal integer becomes: the correctly rounded value, or a string beyond the double range *)
 Definition dec_float (neg : bool) (d : bytes) : ival :=
-  match round_decimal neg (dec_val d) 0 (Z.of_nat (List.length d)) with Some b => VFloat b | None => VString end.
+  match round_decimal neg (dec_val d) 0 with Some b => VFloat b | None => VString end.
 
 Lemma parse_float_digits_unsigned d :
   nonempty d = true -> forallb spec_dec d = true ->
@@ -305,7 +305,7 @@ Proof.
   pose proof Hall as Hc0. cbn [forallb] in Hc0. apply andb_true_iff in Hc0 as [Hc0 _].
   assert (eqc c0 "-" = false /\ eqc c0 "+" = false) as [-> ->] by (clear -Hc0; revert Hc0; all_bytes c0).
   rewrite (read_mant_digits _ _ _ _ _ Hall). cbn [orb nonempty negb]. fold (dec_val (c0 :: t)).
-  cbn [Z.opp Z.add]. destruct (round_decimal false (dec_val (c0 :: t)) 0 _); reflexivity.
+  cbn [Z.opp Z.add]. destruct (round_decimal false (dec_val (c0 :: t)) 0); reflexivity.
 Qed.
 
 Lemma parse_float_digits_signed (neg : bool) d :
@@ -315,7 +315,7 @@ Proof.
   intros Hne Hall. unfold infer_maybe_float, parse_float, dec_float.
   destruct neg; cbn [eqc Ascii.eqb Bool.eqb andb];
   rewrite (read_mant_digits _ _ _ _ _ Hall); rewrite Hne; cbn [orb negb Z.opp Z.add]; fold (dec_val d);
-  destruct (round_decimal _ (dec_val d) 0 _); reflexivity.
+  destruct (round_decimal _ (dec_val d) 0); reflexivity.
 Qed.
 
 Lemma decimal_unsigned d :
